@@ -50,7 +50,11 @@ func (g *gen) tree(maxDepth, maxNodes int) *wc.Node {
 		if g.r.Intn(3) == 0 && cnt < maxNodes {
 			n.HasGi = true
 			for j := g.r.Intn(3); j > 0; j-- {
-				n.Gi = append(n.Gi, wc.Pat{Name: names[g.r.Intn(len(names))], DirOnly: g.r.Intn(4) == 0, Neg: g.r.Intn(6) == 0})
+				nm := names[g.r.Intn(len(names))]
+				if p == "." && g.r.Intn(40) == 0 {
+					nm = "." // the one pattern a root .gitignore must not carry (GiOK): exercised, excluded from the oracle
+				}
+				n.Gi = append(n.Gi, wc.Pat{Name: nm, DirOnly: g.r.Intn(4) == 0, Neg: g.r.Intn(6) == 0})
 			}
 			gp := ".gitignore"
 			if p != "." {
@@ -168,7 +172,7 @@ func (g *gen) newCase() *wc.Case {
 		}
 		seenF[f] = true
 		for e := 0; e < c.NExt; e++ {
-			if r.Intn(3) != 0 {
+			if r.Intn(5) < 2 {
 				continue
 			}
 			c.Req = append(c.Req, wc.EP{E: e, P: f})
